@@ -1,2 +1,73 @@
--- driver stub for C08: replaced by the real line-protocol driver
-def main : IO Unit := pure ()
+import Bermuda.Model.Json
+import Bermuda.Model.Aggregate
+import Bermuda.Spec.C08
+open Lean Bermuda
+
+def resOf (j : Json) (k : String) : Except String (Option (Int × String)) :=
+  match j.getObjVal? k with
+  | .ok v =>
+    if v.isNull then .ok none else do
+      let a ← v.getArr?
+      if a.size != 2 then throw "resolution: want [quantity, unit]"
+      return some (← jInt? a[0]!, ← a[1]!.getStr?)
+  | .error _ => .ok none
+
+def dateOf (j : Json) (k : String) (dflt : Date) : Except String Date :=
+  match j.getObjVal? k with
+  | .ok v => if v.isNull then .ok dflt else Date.fromJson v
+  | .error _ => .ok dflt
+
+/-- Spec verdicts on the implementation's output `impl` (`none` when it raised) for a CUMULATIVE source in the
+aligned regime; `null` otherwise (exotic origins and incremental inputs are compared against the model / by the
+commutation check only) -/
+def specOf (t : List Cell) (a : AggArgs) (impl : Option (List Cell)) : Json := Id.run do
+  if smIsIncremental t then return Json.null
+  -- evaluation part
+  let mut src := t
+  let mut fields : List (String × Json) := []
+  match a.evalRes with
+  | none => pure ()
+  | some (q, s) =>
+    match standardizeResolution q s with
+    | .error _ => return Json.null
+    | .ok (q, u) =>
+      if !Spec.C08.aligned u a.evalOrigin || q ≤ 0 then return Json.null
+      src := t.filter fun c => Spec.C08.onGrid q u a.evalOrigin c.ev
+  let emptied := (Triangle.slices t).any fun p => (p.2.filter fun c => src.contains c).isEmpty
+  match a.periodRes with
+  | none =>
+    match impl with
+    | some out => fields := fields ++ [("evalOk", Json.bool (out == src))]
+    | none => pure ()
+  | some (q, s) =>
+    match standardizeResolution q s with
+    | .error _ => return Json.null
+    | .ok (q, u) =>
+      if !Spec.C08.aligned u a.periodOrigin || q ≤ 0 then return Json.null
+      fields := fields ++ [("expectStraddle", Json.bool (Spec.C08.expectStraddle q u a.periodOrigin src)),
+                           ("emptiedSlice", Json.bool emptied)]
+      match impl with
+      | some out =>
+        let summed := if a.prem then Spec.C09.additiveFields else Spec.C09.lossFields
+        fields := fields ++ [
+          ("windowsOk", Json.bool (Spec.C08.windowsOk q u a.periodOrigin out)),
+          ("cover", Json.bool (Spec.C08.cover src out)),
+          ("cellSums", Json.bool (Spec.C08.cellSums summed src out)),
+          ("keysOk", Json.bool (Spec.C08.keysOk src out)),
+          ("conserves", Json.bool (Spec.C08.conserves summed src out))]
+      | none => pure ()
+  return Json.mkObj fields
+
+def handle (j : Json) : Except String Json := do
+  let cells ← cellsFromJson (← j.getObjVal? "cells")
+  let a : AggArgs := {
+    periodRes := ← resOf j "pres", evalRes := ← resOf j "eres",
+    periodOrigin := ← dateOf j "porigin" ⟨1999, 12, 31⟩, evalOrigin := ← dateOf j "eorigin" ⟨1999, 12, 31⟩,
+    prem := ← (← j.getObjVal? "prem").getBool? }
+  let impl ← match j.getObjVal? "impl" with
+    | .ok v => if v.isNull then pure none else (cellsFromJson v).map some
+    | .error _ => pure none
+  let model := aggregate Transc.id cells a
+  return Json.mkObj [("model", exceptToJson cellsToJson model), ("spec", specOf cells a impl)]
+
+def main : IO Unit := serve handle
